@@ -876,7 +876,10 @@ def run(c):
   # translator: the keys of every SQL query (what the policy supporter's GetTrials is built on), kernel-checked
   from vcheck import sqlkeyscheck
   sqlkeyscheck.translate(c)
+  from vcheck import pythiashapecheck
+  pythiashapecheck.translate(c)
   c.proof_stage()
+  pythiashapecheck.stage(c)
   sqlkeyscheck.stage(c)
   from vcheck import svc
   shortcut, corpus = identify(c)
